@@ -228,8 +228,10 @@ def shapes(tier):
         if not dflt and not static_first and mode != "partial_unmatched":
             continue
         for form in (["path", "none"] if tier == "quick" else ["path", "explicit", "none"]):
-            if form == "none" and (dflt or mode == "partial_unmatched"):
+            if form == "none" and mode == "partial_unmatched":
                 continue
+            if form == "none" and dflt and mode == "partial":
+                continue  # unmentioned provided method: the default body runs (covered with form=path)
             out.append(dict(recv=recv, params=p, form=form, n=2, pos=1, asy=asy, mode=mode, dflt=dflt, static_first=static_first))
     return out
 
